@@ -30,3 +30,40 @@ def integration_specs(metrics_only=False):
             continue
         out.append(sp)
     return out
+
+
+def named_sizes(spec):
+    import re
+    names = set()
+    for ranks in ((spec.get("mapping") or {}).get("partitioning") or {}).values():
+        for dirs in (ranks or {}).values():
+            for d in dirs:
+                m = re.fullmatch(r"\s*(?:uniform_shape|nway_shape)\(\s*([A-Za-z_]\w*)\s*\)\s*", d)
+                if m:
+                    names.add(m.group(1))
+                m = re.fullmatch(r"\s*uniform_occupancy\(\s*\w+\s*\.\s*([A-Za-z_]\w*)\s*\)\s*", d)
+                if m:
+                    names.add(m.group(1))
+    return names
+
+
+EXTENTS = {
+    "conv2d.yaml": {"P": 2, "Q": 2, "R": 2, "S": 2, "H": 3, "W": 3, "C": 1, "M": 2, "B": 1},
+}
+
+
+def integration_e1_specs():
+    """every shipped specification with small extents (model validation and extra coverage for the E1 checks)"""
+    out = []
+    for sp in integration_specs():
+        base = sp["name"].split("/")[-1]
+        if not sp.get("extents"):
+            ranks = sorted({r for rs in sp["decl"].values() for r in rs})
+            ext = dict(EXTENTS.get(base) or {})
+            for i, r in enumerate(ranks):
+                ext.setdefault(r, 2 + (i % 2))
+            sp["extents"] = ext
+        for n in named_sizes(sp):
+            sp.setdefault("sizes", {}).setdefault(n, 2)
+        out.append(sp)
+    return out
